@@ -565,6 +565,9 @@ pub fn run(r: &Run) {
     // "the validation state used by policy": an export policy conditioned on the state, evaluated by a live session
     r.assume(crate::props::rpkiexp::RULE);
     r.prop("export-rpki", r.tier.pick(30_000, 600_000), || crate::props::rpkiexp::arb_case(r.tier.pick(20, 36)), crate::props::rpkiexp::check);
+    // "... and shown by the API"
+    r.assume(crate::props::rpkiexp::API_RULE);
+    r.prop("api-rpki", r.tier.pick(60_000, 1_500_000), crate::props::rpkiexp::arb_api_case, crate::props::rpkiexp::check_api);
     // bounded-exhaustive windows: on a byte boundary, across one, deep in the address
     let windows: Vec<(bool, u8, u8, bool)> = if q {
         vec![(false, 0, 5, false), (false, 6, 5, false), (false, 21, 5, false), (true, 61, 4, false), (true, 123, 5, false), (false, 14, 2, true), (false, 0, 2, true), (true, 63, 2, true)]
@@ -588,6 +591,9 @@ pub fn run(r: &Run) {
 pub fn replay(sub: &str, case: &Value) -> Result<CheckResult, String> {
     if sub == "rtr-fed-vrps" {
         return Ok(crate::props::c13::check(&decode_case(case)?));
+    }
+    if sub == "api-rpki" {
+        return crate::props::rpkiexp::replay_api(case);
     }
     if sub == "export-rpki" {
         return crate::props::rpkiexp::replay(case);
